@@ -111,11 +111,17 @@ def r06_4(ctx: Ctx):
         for k, ne in items.items():
             a = ne.d['args']
             xs[k] = a[1] if len(a) > 1 else ne.d['kwargs'].get('x')
-        order = sorted(xs, key=lambda k: xs[k].const_value() if isinstance(xs[k], RF) and
-                       xs[k].const_value() is not None else 9)
+        def rank(k):
+            # the end points 0 and 1 are constants; whatever lies between them (1/2, or a coordinate computed from a
+            # start point) is ordered between them
+            c = xs[k].const_value() if isinstance(xs[k], RF) else None
+            if c is None:
+                return 0.5
+            return float(c)
+        order = sorted(xs, key=rank)
         for i, k in enumerate(order):
             sts = [s for s in p.stores() if s.d['tkind'] == 'attr' and s.d['field'] == 'delta'
-                   and s.depth == 0 and key_of(s.d['base']) == k]
+                   and key_of(s.d['base']) == k]
             if i == 0:
                 continue      # the left end has no interval
             ns += 1
@@ -125,7 +131,7 @@ def r06_4(ctx: Ctx):
                 continue
             got = C.norm_self(ctx, sdr, sts[-1].d['value'])
             exp = rf_pow(xs[k] - xs[order[i - 1]], RF.const(1) / Ns)
-            ok = isinstance(got, RF) and got.equals(exp)
+            ok = isinstance(got, RF) and (got.equals(exp) or C.strip_rf(got).equals(C.strip_rf(exp)))
             ctx.check(ok, rid, sdr.short, sdr.loc(sts[-1].node), 'seed interval length = (x - x_left)^(1/N)',
                       f'seed interval length is {C.fmt(got)}; expected {C.fmt(exp)}',
                       key=ctx.key_for(rid, sdr, sts[-1].node))
@@ -208,11 +214,15 @@ def r06_5_all_items(ctx: Ctx):
     gi = ctx.ix.func('Evolvent.GetImage')
     item = ctx.ix.cls('SearchDataItem')
     n = 0
+    _ = ctx.pta
+    skipped = set(getattr(ctx, 'restore_only_skipped', ()))
     for q, f in sorted(ctx.ix.funcs.items()):
         if f.kind != 'function' or not f.module.name.startswith(('iOpt.method', 'iOpt.solver')):
             continue
         if f.cls is not None and (f.cls.is_subclass_of(item) or f.cls is item):
             continue
+        if roles.fq(f) in skipped:
+            continue        # state-restoring code rebuilds items from a saved state: R03.7 / R11.4 / R20.5 decide it
         if not any(isinstance(nd, ast.Call) and any(o.kind == 'cls' and o.cls is not None and
                                                     o.cls.is_subclass_of(item)
                                                     for o in ctx.pta.expr_pts(f, nd.func))
@@ -416,7 +426,7 @@ def check(ctx: Ctx):
         ctx.rule('R06.5', 'wiring of point/coordinate/value of stored items = R02.1 + R02.8 (new item) + R04.4, '
                           're-run here')
         from . import c02, c04
-        c02.r02_1(ctx)
+        c02.r02_1(ctx, coordinate_fixed=False)
         c02.r02_8_selection(ctx)
         c04.r04_4(ctx)
         r06_5_all_items(ctx)
